@@ -343,4 +343,230 @@ theorem contentLength_bound (v : List Nat) (n : Nat) (h : contentLength v = .ok 
         exact parseU64_bound _ _ hp
       · cases h
 
+/-! ### all segmentations -/
+
+/-- reachable registers: the `Body` state is only ever entered with a positive size -/
+def SInv (st : CState) (size : Nat) : Prop := st = .body → 0 < size
+
+/-- facts about one successful step -/
+theorem step_facts {st : CState} {rdr : List Nat} {size : Nat} {st' : CState} {rdr' : List Nat}
+    {size' : Nat} {buf : Option (List Nat)} (hinv : SInv st size)
+    (h : step st rdr size = .ok (.ready st' rdr' size' buf)) :
+    SInv st' size' ∧ rdr'.length ≤ rdr.length ∧ (buf.isSome → rdr'.length < rdr.length) := by
+  unfold SInv at *
+  cases st <;> simp only [step] at h
+  · unfold readSize at h
+    cases rdr with
+    | nil => simp at h
+    | cons b rest =>
+      simp only at h
+      split at h
+      · cases h
+      · cases h
+      · split at h <;> (try split at h) <;> (try split at h) <;> simp [invalid] at h <;>
+          (obtain ⟨rfl, rfl, rfl, rfl⟩ := h; simp)
+      · split at h
+        · unfold uadd at h
+          split at h
+          · simp at h; obtain ⟨rfl, rfl, rfl, rfl⟩ := h; simp
+          · simp at h
+        · simp [invalid] at h
+  · unfold readSizeLws at h; cases rdr with
+    | nil => simp at h
+    | cons b rest =>
+      simp only at h
+      split at h <;> (try split at h) <;> (try split at h) <;> simp [invalid] at h <;>
+        (obtain ⟨rfl, rfl, rfl, rfl⟩ := h; simp)
+  · unfold readExtension at h; cases rdr with
+    | nil => simp at h
+    | cons b rest =>
+      simp only at h
+      split at h <;> (try split at h) <;> simp [invalid] at h <;>
+        (obtain ⟨rfl, rfl, rfl, rfl⟩ := h; simp)
+  · unfold readSizeLf at h; cases rdr with
+    | nil => simp at h
+    | cons b rest =>
+      simp only at h
+      split at h
+      · rename_i hb
+        simp at h; obtain ⟨rfl, rfl, rfl, rfl⟩ := h; simp; exact hb.2
+      · split at h <;> simp [invalid] at h
+        obtain ⟨rfl, rfl, rfl, rfl⟩ := h; simp
+  · have hpos := hinv rfl
+    unfold readBody at h
+    simp only at h
+    split at h
+    · rename_i h0
+      simp at h; obtain ⟨rfl, rfl, rfl, rfl⟩ := h; simp; exact hpos
+    · rename_i hne
+      split at h
+      · unfold usub at h
+        split at h
+        · simp at h; obtain ⟨hst, rfl, rfl, rfl⟩ := h
+          refine ⟨?_, by simp, ?_⟩
+          · intro hb; omega
+          · intro _; simp; omega
+        · simp at h
+      · unfold splitTo at h
+        split at h
+        · simp at h; obtain ⟨rfl, rfl, rfl, rfl⟩ := h
+          refine ⟨by simp, by simp, ?_⟩
+          intro _; simp; omega
+        · simp at h
+  all_goals
+    first
+    | (unfold expectByte at h
+       cases rdr with
+       | nil => simp at h
+       | cons b rest =>
+         simp only at h
+         split at h <;> simp [invalid] at h
+         obtain ⟨rfl, rfl, rfl, rfl⟩ := h; simp)
+    | (simp at h; obtain ⟨rfl, rfl, rfl, rfl⟩ := h; simp)
+
+/-- registers of `PayloadDecoder` that the code can reach -/
+def KInv : Kind → Prop
+  | .chunked st size => SInv st size
+  | _ => True
+
+def isChunk : Item → Bool
+  | .chunk _ => true
+  | _ => false
+
+theorem loop_facts : ∀ (fuel : Nat) (st : CState) (size : Nat) (rdr : List Nat) (k' : Kind)
+    (rdr' : List Nat) (item : Item), SInv st size →
+    decodeChunkedLoop fuel st size rdr = .ok (k', rdr', item) →
+    KInv k' ∧ rdr'.length ≤ rdr.length ∧ (isChunk item = true → rdr'.length < rdr.length)
+  | 0, _, _, _, _, _, _, _, h => by simp [decodeChunkedLoop] at h
+  | fuel + 1, st, size, rdr, k', rdr', item, hinv, h => by
+    rw [decodeChunkedLoop] at h
+    cases hstep : step st rdr size with
+    | panic s => rw [hstep] at h; simp at h
+    | err e => rw [hstep] at h; simp at h
+    | ok r =>
+      rw [hstep] at h
+      cases r with
+      | pending =>
+        simp at h; obtain ⟨rfl, rfl, rfl⟩ := h
+        exact ⟨hinv, Nat.le_refl _, by simp [isChunk]⟩
+      | ready st1 rdr1 size1 buf =>
+        have hf := step_facts hinv hstep
+        simp only at h
+        split at h
+        · simp at h; obtain ⟨rfl, rfl, rfl⟩ := h
+          exact ⟨hf.1, hf.2.1, by simp [isChunk]⟩
+        · cases buf with
+          | some b =>
+            simp at h; obtain ⟨rfl, rfl, rfl⟩ := h
+            exact ⟨hf.1, hf.2.1, fun _ => hf.2.2 (by simp)⟩
+          | none =>
+            simp only at h
+            split at h
+            · simp at h; obtain ⟨rfl, rfl, rfl⟩ := h
+              exact ⟨hf.1, hf.2.1, by simp [isChunk]⟩
+            · have ih := loop_facts fuel st1 size1 rdr1 k' rdr' item hf.1 h
+              exact ⟨ih.1, Nat.le_trans ih.2.1 hf.2.1, fun hc => Nat.lt_of_lt_of_le (ih.2.2 hc) hf.2.1⟩
+
+/-- one `decode` call: the register stays reachable, the buffer never grows, and a delivered
+chunk consumed at least one byte -/
+theorem decode_facts (k : Kind) (src : List Nat) (k' : Kind) (src' : List Nat) (item : Item)
+    (hk : KInv k) (h : decode k src = .ok (k', src', item)) :
+    KInv k' ∧ src'.length ≤ src.length ∧ (isChunk item = true → src'.length < src.length) := by
+  cases k with
+  | length remaining =>
+    simp only [decode] at h
+    split at h
+    · simp at h; obtain ⟨rfl, rfl, rfl⟩ := h; simp [KInv, isChunk]
+    · split at h
+      · simp at h; obtain ⟨rfl, rfl, rfl⟩ := h; simp [KInv, isChunk]
+      · rename_i hne hemp
+        split at h
+        · unfold usub at h
+          split at h
+          · simp at h; obtain ⟨rfl, rfl, rfl⟩ := h
+            refine ⟨by simp [KInv], by simp, ?_⟩
+            intro _; cases src with
+            | nil => simp at hemp
+            | cons a t => simp
+          · simp at h
+        · unfold splitTo at h
+          split at h
+          · simp at h; obtain ⟨rfl, rfl, rfl⟩ := h
+            refine ⟨by simp [KInv], by simp, ?_⟩
+            intro _; simp
+            cases src with
+            | nil => simp at hemp
+            | cons a t => simp; omega
+          · simp at h
+  | chunked st size =>
+    simp only [decode] at h
+    exact loop_facts _ st size src k' src' item hk h
+  | eof =>
+    simp only [decode] at h
+    split at h
+    · simp at h; obtain ⟨rfl, rfl, rfl⟩ := h; simp [KInv, isChunk]
+    · rename_i hemp
+      simp at h; obtain ⟨rfl, rfl, rfl⟩ := h
+      refine ⟨by simp [KInv], by simp, ?_⟩
+      intro _
+      cases src with
+      | nil => simp at hemp
+      | cons a t => simp
+
+/-- draining one buffer: never panics, never runs out of fuel when `fuel > buf.length + 1`,
+and hands back a reachable register and a buffer that did not grow -/
+theorem drain_spec : ∀ (fuel : Nat) (k : Kind) (buf : List Nat) (acc : Nat), KInv k →
+    buf.length + 1 < fuel →
+    NoPanic (drain fuel k buf acc) ∧
+    ∀ k' buf' acc' e, drain fuel k buf acc = .ok (k', buf', acc', e) →
+      KInv k' ∧ buf'.length ≤ buf.length
+  | 0, _, _, _, _, hf => by omega
+  | fuel + 1, k, buf, acc, hk, hf => by
+    rw [drain]
+    have hnp := decode_noPanic k buf
+    cases hd : decode k buf with
+    | panic s => rw [hd] at hnp; exact absurd hnp (by simp)
+    | err e => simp
+    | ok r =>
+      obtain ⟨k1, buf1, item⟩ := r
+      have hfacts := decode_facts k buf k1 buf1 item hk hd
+      cases item with
+      | none =>
+        simp only
+        refine ⟨by simp, ?_⟩
+        intro k' buf' acc' e h; simp at h; obtain ⟨rfl, rfl, _, _⟩ := h
+        exact ⟨hfacts.1, hfacts.2.1⟩
+      | eof =>
+        simp only
+        refine ⟨by simp, ?_⟩
+        intro k' buf' acc' e h; simp at h; obtain ⟨rfl, rfl, _, _⟩ := h
+        exact ⟨hfacts.1, hfacts.2.1⟩
+      | chunk b =>
+        simp only
+        have hlt := hfacts.2.2 (by simp [isChunk])
+        have ih := drain_spec fuel k1 buf1 (acc + b.length) hfacts.1 (by omega)
+        refine ⟨ih.1, ?_⟩
+        intro k' buf' acc' e h
+        have := ih.2 k' buf' acc' e h
+        exact ⟨this.1, by omega⟩
+
+/-- **every segmentation**: feeding any list of segments to a reachable register never panics
+(and the fuel the model gives each drain is enough) -/
+theorem feed_noPanic : ∀ (segs : List (List Nat)) (k : Kind) (buf : List Nat) (acc : Nat),
+    KInv k → NoPanic (feed k buf acc segs)
+  | [], k, buf, acc, _ => by simp [feed]
+  | seg :: segs, k, buf, acc, hk => by
+    rw [feed]
+    have hd := drain_spec ((buf ++ seg).length + 2) k (buf ++ seg) acc hk (by omega)
+    cases hdr : drain ((buf ++ seg).length + 2) k (buf ++ seg) acc with
+    | panic s => rw [hdr] at hd; exact absurd hd.1 (by simp)
+    | err e => simp
+    | ok r =>
+      obtain ⟨k1, buf1, acc1, e⟩ := r
+      cases e with
+      | true => simp
+      | false =>
+        simp only
+        exact feed_noPanic segs k1 buf1 acc1 (hd.2 k1 buf1 acc1 false hdr).1
+
 end ActixModel.Panic.Chunk
